@@ -294,6 +294,13 @@ func TestDriveOracle(t *testing.T) {
 					t.Fatalf("activate failed: %v", err)
 				}
 				res = "gov"
+			case "Rebind":
+				// governance restates the binding of the bridged token (same chain, contract, denom)
+				h := skywaykeeper.NewSkywayProposalHandler(e.Skyway)
+				if err := h(ctx, &st.SetERC20ToDenomProposal{Title: "t", Description: "d", ChainReferenceId: chain, Erc20: goodToken, Denom: denom}); err != nil {
+					t.Fatalf("rebind failed: %v", err)
+				}
+				res = "gov"
 			case "SetPower":
 				if err := w.setPower(ctx, e.Vals[a.V-1], int64(a.P)); err != nil {
 					t.Fatalf("set power failed: %v", err)
